@@ -414,8 +414,40 @@ type recEmitter struct {
 }
 
 func (e *recEmitter) rec(scope, ev string, arg any) {
-	vs.Emit("em"+strconv.Itoa(e.idx)+":"+scope, ev, arg)
+	vs.Emit("em"+strconv.Itoa(e.idx)+":"+scope, ev, stableArg(arg))
 	e.r.Emits = append(e.r.Emits, emitRec{Em: e.idx, Scope: scope, Ev: ev, Arg: arg, VC: vs.Now(), Tid: vs.Tid()})
+}
+
+// stableArg renders an emitter argument for the visible trace: no stack
+// traces (PanicError.Error() prints one), no fmt (see Hash in package probe).
+func stableArg(arg any) string {
+	switch v := arg.(type) {
+	case nil:
+		return "<nil>"
+	case string:
+		return v
+	case panicStruct:
+		return "panicStruct{" + strconv.Itoa(v.A) + " " + v.B + "}"
+	case cff.SchedulerState:
+		return "state{P" + strconv.Itoa(v.Pending) + " R" + strconv.Itoa(v.Ready) + " W" + strconv.Itoa(v.Waiting) + " I" + strconv.Itoa(v.IdleWorkers) + " C" + strconv.Itoa(v.Concurrency) + "}"
+	case error:
+		if es := multierr.Errors(v); len(es) > 1 {
+			s := "multi["
+			for i, e := range es {
+				if i > 0 {
+					s += "; "
+				}
+				s += stableArg(e)
+			}
+			return s + "]"
+		}
+		var pe *cff.PanicError
+		if errors.As(v, &pe) {
+			return "PanicError(" + stableArg(pe.Value) + ")"
+		}
+		return v.Error()
+	}
+	return reflect.TypeOf(arg).String()
 }
 
 type recScoped struct {
@@ -1233,13 +1265,22 @@ func checkEmitters(r *Run, inst int, o *probe.Out, byID map[string][]*call) []Fi
 		}
 		return b.String()
 	}
-	for em := 1; em < ne; em++ {
-		if render(em) != render(0) {
-			add("C18", "emitter %d of the stack received a different event sequence than emitter 0:\n   0: %s\n   %d: %s", em, render(0), em, render(em))
+	emKind := ""
+	if p.Flow != nil {
+		emKind = p.Flow.Emitters
+	} else {
+		emKind = p.Par.Emitters
+	}
+	groups, prim := pg.EmitterGroups(emKind)
+	for _, g := range groups {
+		for _, em := range g[1:] {
+			if render(em) != render(g[0]) {
+				add("C18", "emitter %d received a different event sequence than emitter %d, which is registered in the same way:\n   %d: %s\n   %d: %s", em, g[0], g[0], render(g[0]), em, render(em))
+			}
 		}
 	}
 	if instrumented {
-		ds := seqOf(0, scope)
+		ds := seqOf(prim, scope)
 		nS, nE, nD := 0, 0, 0
 		for i, e := range ds {
 			switch e.Ev {
@@ -1282,7 +1323,7 @@ func checkEmitters(r *Run, inst int, o *probe.Out, byID map[string][]*call) []Fi
 		}
 	}
 	for _, t := range ts {
-		evs := seqOf(0, "task:"+t.name)
+		evs := seqOf(prim, "task:"+t.name)
 		cnt := map[string]int{}
 		for _, e := range evs {
 			cnt[e.Ev]++
